@@ -21,10 +21,10 @@ E2_NOTE_OLD = ("Trusted base: reference Jaqal machine R2 (task-per-branch, seede
            "shared gate matrices. Bounds: n<=4 qubits, <=25 generated statements, nesting<=5, loop counts<=3; brackets whose prepare and measure do not share "
            "their chain of enclosing loops are excluded (statement ambiguous there). Sampling over seeds, not enumeration.")
 E2_NOTE = ("Trusted base: reference Jaqal machine R2 (task-per-branch, seeded scheduler, tensor-contraction state update), resolver R1 (also the validity filter of the generator), "
-           "meaning extractor X, gate matrices shared between emulator and reference (four conventions switched between runs). Bounds: registers up to 6 qubits, <=25 generated statements, nesting<=5, "
+           "meaning extractor X, gate matrices shared between emulator and reference (four conventions switched between runs). Bounds: registers up to 6 qubits (8-10 in 5 % of C08/C15 runs, with at most six statements), <=25 generated statements, nesting<=5, "
            "loop counts<=3 (quick) / one subcircuit visited 70 000 times (thorough only); brackets whose prepare and measure do not share their chain of enclosing loops are excluded "
            "(statement ambiguous there). Runs execute in chunks inside one forked process; state the library keeps between calls is reported through chain replay. Sampling over seeds, not enumeration.")
-E1_NOTE = ("Trusted base: identity-aware deep snapshot R4, meaning extractor X, twin/other-order executions as reference. Bounds: histories of 4-20 operations, pool<=6, "
+E1_NOTE = ("Trusted base: identity-aware deep snapshot R4, meaning extractor X, twin/other-order executions and (C11, C16) the last run of every chunk executed alone in a new process as reference. Bounds: histories of 4-20 operations, pool<=6, "
            "programs<=25 statements. Pre-emptive threads are not simulated (no property mentions them); interleaving is explored as operation order, as nesting at the two re-entrancy points "
            "(gate matrix functions, pulse-module top level) and as cancellation at an arbitrary line event. Sampling over seeds, not enumeration; C16's per-text truncation/flip sweep is exhaustive for the swept text.")
 CHECKS = {
@@ -38,9 +38,9 @@ CHECKS = {
    "All result views of every run are checked for normalisation, key order, little-endian correspondence and counts; the hardware stub's history is delivered in three encodings that must be interpreted identically; the support-adversarial sampler makes rare and non-palindromic outcomes common.", E2_NOTE),
  "C10": ("E1", "seeded operation-history search (orders and repetitions of passes) against the meaning extractor as reference model",
    "Histories of passes over a shared starting circuit: sequences with the same set of pass kinds must agree in meaning, each pass must be idempotent in three views, parser flags must equal explicit passes, every intermediate circuit must regenerate and re-parse to the same meaning.", E1_NOTE),
- "C11": ("E1", "session simulator: operation histories on shared objects with identity-aware snapshots, twin executions on fresh copies, cancellation at step k, re-entrant nested calls",
+ "C11": ("E1", "session simulator: operation histories on shared objects with identity-aware snapshots, twin executions on fresh copies and in a process that ran nothing before, cancellation at step k, re-entrant nested calls",
    "After every operation of a seeded history (including failed, interrupted and nested operations) the deep identity-aware snapshot of every live circuit, result and the gate table must be unchanged, and every operation's outcome must equal that of the same operation on a freshly parsed copy.", E1_NOTE),
- "C16": ("E1", "fault injection on the source store and pulse-module store, cancellation at step k, histories compared between two process lifetimes (deterministic simulation), exhaustive truncation/flip sweep per text",
+ "C16": ("E1", "fault injection on the source store and pulse-module store, cancellation at step k, histories compared between two process lifetimes and with a process that ran nothing before (deterministic simulation), exhaustive truncation/flip sweep per text, depth faults (nesting up to 520)",
    "Corrupted, truncated and torn texts, missing/broken pulse modules and interrupts are injected into histories of parse/run calls; every outcome must be a value, JaqalError (JaqalParseError with an in-text position) or ImportError for a missing module, within the step budget, and every call's outcome must be identical in a process lifetime with a different history.", E1_NOTE),
 }
 def main(claimed):
